@@ -108,7 +108,7 @@ Proof. intros rec st l s e s1 Hst H. destruct st; try contradiction; cbn [run_st
 (* an uncaught error of a script function reaches the caller as an error of the call *)
 Theorem callee_error_is_an_error_of_the_call : forall orc cancel_at fuel f args cs s e s',
   exec orc cancel_at fuel (CApply f args cs) s = Err e s' ->
-  match e with ESentinel _ => False | _ => True end /\ r_env s' = r_env s.
+  nonsentinel e /\ r_env s' = r_env s.
 Proof.
   intros orc cancel_at fuel f args cs s e s' Hx. pose proof (exec_env orc cancel_at fuel (CApply f args cs) s) as H.
   rewrite Hx in H. cbn [strict_cmd err_pred env_eq post_env] in H.
